@@ -939,4 +939,46 @@ theorem run_inv {v : Ver} : ∀ (evs hs : List Ev) (c : Client), Inv v hs c →
 theorem run_init_inv (v : Ver) (evs : List Ev) : Inv v evs (run v init evs) := by
   simpa using run_inv evs [] init (inv_init v)
 
+/-! ## every filed message is keyed by the first id it carries (no hypotheses) -/
+
+theorem bufStep_keyed {v : Ver} {buf c : Bytes} {f : Nat × Bytes} (h : (bufStep v buf c).2 = some f) :
+    firstId f.2 = some f.1 ∧ f.1 ≠ 0 := by
+  unfold bufStep at h
+  simp only at h
+  split at h
+  · split at h
+    · cases h
+    · split at h
+      · rename_i n hn
+        split at h
+        · rename_i hne
+          simp only [Option.some.injEq] at h
+          subst h
+          exact ⟨hn, by simpa using hne⟩
+        · cases h
+      · cases h
+  · cases h
+
+theorem filings_keyed {v : Ver} : ∀ (cs : List Bytes) (buf : Bytes) (f : Nat × Bytes),
+    f ∈ (filings v buf cs).1 → firstId f.2 = some f.1 ∧ f.1 ≠ 0 := by
+  intro cs
+  induction cs with
+  | nil => intro buf f hf; simp [filings] at hf
+  | cons c cs ih =>
+    intro buf f hf
+    rw [filings_cons] at hf
+    simp only [List.mem_append] at hf
+    rcases hf with hf | hf
+    · cases hq : (bufStep v buf c).2 with
+      | none => simp [hq] at hf
+      | some q =>
+        simp only [hq, Option.toList, List.mem_singleton] at hf
+        subst hf
+        exact bufStep_keyed hq
+    · exact ih _ f hf
+
+theorem filings_prefix_mem {v : Ver} {buf : Bytes} {a b : List Bytes} {f : Nat × Bytes}
+    (h : f ∈ (filings v buf a).1) : f ∈ (filings v buf (a ++ b)).1 := by
+  rw [filings_append]; simp [h]
+
 end Scrapli.Netconf.Store
